@@ -126,6 +126,8 @@ def scen_padding_param(rep):
 
 
 def _mk_rot(kind):
+    if kind == "n":
+        return None  # the documented "unit rotation"
     if kind == "s":
         return SRot(Arr(None, lambda i: rho, "quat"))
     return SRot(Arr(n, lambda i: RHO(i), "quat"))
@@ -176,9 +178,11 @@ def scen_move(rep, via):
 def scen_rotate(rep, via, tier, only=None):
     fails = []
     anchors = ("none", "zero", "s", "v")
-    for rk, ak, auto, par in itertools.product("sv", anchors, (True, False), (False, True)):
+    for rk, ak, auto, par in itertools.product("svn", anchors, (True, False), (False, True)):
         if par and (ak != "none" or via != "apply"):
             continue
+        if rk == "n" and (par or ak == "v"):
+            continue  # rotation=None (the documented unit rotation): plain and anchored forms
         if only and (rk, ak) != only:
             continue
         ns = PathNS()
@@ -198,14 +202,14 @@ def scen_rotate(rep, via, tier, only=None):
 
         def post(ctx, res):
             obj, P, O = res
-            rl = None if rk == "s" else n
+            rl = None if rk in ("s", "n") else n
             al = na if ak == "v" else None
             if rl is None and al is None:
                 scalar, nn = True, z3.IntVal(1)
             else:
                 scalar = False
                 nn = rl if al is None else (al if rl is None else z3.If(rl > al, rl, al))
-            rot_at = (lambda i: rho) if rk == "s" else (lambda i: RHO(clamp(i, n)))
+            rot_at = (lambda i: RID) if rk == "n" else ((lambda i: rho) if rk == "s" else (lambda i: RHO(clamp(i, n))))
             if ak == "none":
                 anc_at = (lambda i, j: PP(clamp(j, N))) if par else None
             elif ak == "zero":
@@ -461,7 +465,9 @@ def native_case(sc, Nn, nn_, nan_, st, seed=0):
             s.move(disp, start=stv)
             eP, eQ = PS.n_expected(pos0, q0, "move", sc["scalar"], 1 if sc["scalar"] else nn_, stv, disp=disp)
         elif sc["op"] == "rotate":
-            rot = R.from_rotvec(rng.normal(size=3)) if sc["rot"] == "s" else R.from_rotvec(rng.normal(size=(nn_, 3)))
+            rot = R.from_rotvec(rng.normal(size=3)) if sc["rot"] in ("s", "none") else R.from_rotvec(rng.normal(size=(nn_, 3)))
+            if sc["rot"] == "none":
+                rot = R.identity()  # what rotation=None stands for: the expected result is computed with the unit rotation
             if sc.get("tiny"):
                 # nanometre-sized numbers: positions within 1e-8 of the anchor must still be rotated about it
                 s._position = s._position * 1e-9
@@ -471,14 +477,14 @@ def native_case(sc, Nn, nn_, nan_, st, seed=0):
             if sc["anchor"] == "self":
                 anc = s.position  # the object's own position (a view of its path array): rotating about itself must leave the position alone
             parent = rng.normal(size=(Nn, 3)) if sc.get("parent") else None
-            scalar = sc["rot"] == "s" and sc["anchor"] != "v"
+            scalar = sc["rot"] in ("s", "none") and sc["anchor"] != "v"
             ln = 1 if scalar else max(nn_ if sc["rot"] == "v" else 0, nan_ if sc["anchor"] == "v" else 0)
             if parent is not None:
                 import magpylib._src.obj_classes.class_BaseTransform as BT
 
                 BT.apply_rotation(s, rot, anchor=None, start=stv, parent_path=parent.copy())
             else:
-                s.rotate(rot, anchor=anc, start=stv)
+                s.rotate(None if sc["rot"] == "none" else rot, anchor=anc, start=stv)
             a = np.zeros(3) if sc["anchor"] == "zero" else anc
             if sc["anchor"] == "self":
                 a = pos0.copy() if len(pos0) > 1 else pos0[0].copy()
@@ -551,6 +557,99 @@ sys.exit(1 if msg else 0)
 """
 
 
+def native_wrappers(seed=0):
+    """rotate_from_* against rotate() with the equivalent scipy rotation on the real library — also zero angles / unit rotations and start values
+    outside the path (the padding must happen all the same); returns (evaluations, messages)"""
+    import magpylib as magpy
+    from scipy.spatial.transform import Rotation as R
+
+    rng = np.random.default_rng(seed)
+    bad, n = [], 0
+    for m, start, zero in itertools.product((1, 3), ("auto", 0, -1, 4, -5), (False, True)):
+        for form in ("angax", "rotvec", "euler", "quat", "matrix", "mrp"):
+            rv = np.zeros(3) if zero else rng.normal(size=3)
+            rot = R.from_rotvec(rv)
+
+            def mk():
+                s_ = magpy.Sensor()
+                s_._position = np.arange(3 * m, dtype=float).reshape(m, 3)
+                s_._orientation = R.from_rotvec(np.linspace(0.1, 0.5, 3 * m).reshape(m, 3))
+                return s_
+
+            a, b = mk(), mk()
+            anc = (0.3, -0.2, 0.5)
+            a.rotate(rot, anchor=anc, start=start)
+            ang = np.linalg.norm(rv)
+            try:
+                if form == "angax":
+                    b.rotate_from_angax(np.rad2deg(ang), rv if ang else (0, 0, 1), anchor=anc, start=start)
+                elif form == "rotvec":
+                    b.rotate_from_rotvec(rv, anchor=anc, start=start, degrees=False)
+                elif form == "euler":
+                    b.rotate_from_euler(rot.as_euler("xyz"), "xyz", anchor=anc, start=start, degrees=False)
+                elif form == "quat":
+                    b.rotate_from_quat(rot.as_quat(), anchor=anc, start=start)
+                elif form == "matrix":
+                    b.rotate_from_matrix(rot.as_matrix(), anchor=anc, start=start)
+                else:
+                    b.rotate_from_mrp(rot.as_mrp(), anchor=anc, start=start)
+            except Exception as e:  # pylint: disable=broad-except
+                bad.append(f"rotate_from_{form}(start={start}, path length {m}, zero rotation={zero}) raised {type(e).__name__}: {e}")
+                continue
+            n += 1
+            if a._position.shape != b._position.shape or not np.allclose(a._position, b._position, atol=1e-12) or \
+                    not PS.same_rot(a._orientation.as_quat(), b._orientation.as_quat()):
+                bad.append(f"rotate_from_{form}(start={start}, path length {m}, zero rotation={zero}) differs from rotate() with the equivalent rotation "
+                           f"(path lengths {len(b._position)} vs {len(a._position)})")
+    return n, bad
+
+
+def native_empty_paths():
+    """an EMPTY position array / Rotation is not a path (paths have length >= 1): constructor and setters must reject it with the library's input
+    error and leave the object unchanged; returns (evaluations, messages)"""
+    import magpylib as magpy
+    from magpylib._src.exceptions import MagpylibBadUserInput
+    from scipy.spatial.transform import Rotation as R
+
+    bad, n = [], 0
+    empties = {"position": np.zeros((0, 3)), "orientation": R.from_quat(np.zeros((0, 4)))}
+    for attr, val in empties.items():
+        for how in ("constructor", "setter"):
+            n += 1
+            s_ = magpy.Sensor(position=[(1, 2, 3), (2, 3, 4)])
+            p0, q0 = s_._position.copy(), s_._orientation.as_quat().copy()
+            try:
+                if how == "constructor":
+                    s_ = magpy.Sensor(**{attr: val})
+                else:
+                    setattr(s_, attr, val)
+                out = f"accepted: path lengths {len(s_._position)} / {len(s_._orientation)}"
+            except MagpylibBadUserInput:
+                out = None
+            except Exception as e:  # pylint: disable=broad-except
+                out = f"raised {type(e).__name__} instead of the input error: {str(e)[:70]}"
+            if out is None and how == "setter" and (not np.array_equal(s_._position, p0) or not np.array_equal(s_._orientation.as_quat(), q0)):
+                out = "rejected, but the object was changed"
+            if out:
+                bad.append(f"empty {attr} through the {how}: {out}")
+    return n, bad
+
+
+REPLAY_EMPTY = """import sys
+from checks.c09 import native_empty_paths
+n, bad = native_empty_paths()
+for b in bad: print(b)
+sys.exit(1 if bad else 0)
+"""
+
+REPLAY_WRAP = """import sys
+from checks.c09 import native_wrappers
+n, bad = native_wrappers(0)
+for b in bad[:6]: print(b)
+sys.exit(1 if bad else 0)
+"""
+
+
 def report_failures(rep, fails):
     done = set()
     for item in fails:
@@ -564,10 +663,13 @@ def report_failures(rep, fails):
         found = []
         if sc and sc.get("op") in ("move", "rotate", "setpos", "setori"):
             found, _ = native_sweep(sc, bound=3, hint=hint)
+        wbad = native_wrappers()[1] if sc and sc.get("op") == "wrapper" else []
         if found:
             p, msg = found[0]
             rep.violation(name, {"why": why, "scenario": sc, "input": p, "native_result": msg, "solver_model": r.get("model_str"),
                                  "script": REPLAY_TMPL.format(sc=json.dumps(sc), p=json.dumps(p))})
+        elif wbad:
+            rep.violation(name, {"why": why, "scenario": sc, "native_result": wbad[:3], "script": REPLAY_WRAP})
         else:
             rep.violation(name, {"why": why, "scenario": sc, "solver_output": r.get("model_str"),
                                  "note": "obligation discharged on the unchanged tree, refuted now"}, found_input=False)
@@ -576,6 +678,16 @@ def report_failures(rep, fails):
 # ---------------------------------------------------------------------------
 def standin(rep, tier):
     """bounded stand-in: the same contract evaluated natively on the real library, small scope"""
+    nw, wbad = native_wrappers()
+    rep.standin("rotate_from_* == rotate() with the equivalent rotation (incl. zero rotations and start values outside the path)", "6 forms x path length {1,3} x 5 start values x {generic, zero}",
+                nw, nw, "random rotation / unit rotation", [dict(form="angax", start=4, zero=True)], failures=len(wbad), exhaustive=True)
+    for b in wbad[:2]:
+        rep.violation("standin.rotate_from-equals-rotate", {"native_result": b, "script": REPLAY_WRAP})
+    ne, ebad = native_empty_paths()
+    rep.standin("empty position / orientation input is rejected (paths have length >= 1), object unchanged", "2 attributes x {constructor, setter}", ne, ne,
+                "np.zeros((0,3)), Rotation of length 0", [dict(attr="position", how="setter")], failures=len(ebad), exhaustive=True)
+    for b in ebad[:2]:
+        rep.violation("standin.empty-path-input", {"native_result": b, "script": REPLAY_EMPTY})
     scs = []
     for scalar, auto in itertools.product((True, False), (True, False)):
         scs.append(dict(op="move", scalar=scalar, auto=auto))
@@ -583,6 +695,8 @@ def standin(rep, tier):
         scs.append(dict(op="rotate", rot=rk, anchor=ak, auto=auto, parent=False))
     for rk, auto in itertools.product("sv", (True, False)):
         scs.append(dict(op="rotate", rot=rk, anchor="none", auto=auto, parent=True))
+    for ak, auto in itertools.product(("none", "zero", "s"), (True, False)):
+        scs.append(dict(op="rotate", rot="none", anchor=ak, auto=auto, parent=False))  # rotation=None: the documented unit rotation, a scalar input
     scs.append(dict(op="rotate", rot="s", anchor="self", auto=True, parent=False))   # anchor aliases the object's own path array
     scs.append(dict(op="rotate", rot="v", anchor="self", auto=False, parent=False))
     for ak in ("zero", "s"):
@@ -625,8 +739,10 @@ def main(tier, seed):
 
     tasks = [("padding_param", scen_padding_param), ("move.apply", lambda r: scen_move(r, "apply")),
              ("move.method", lambda r: scen_move(r, "method"))]
-    for rk in "sv":
+    for rk in "svn":
         for ak in ("none", "zero", "s", "v"):
+            if rk == "n" and ak == "v":
+                continue
             tasks.append((f"rotate.apply.{rk}.{ak}", lambda r, rk=rk, ak=ak: scen_rotate(r, "apply", tier, only=(rk, ak))))
             tasks.append((f"rotate.method.{rk}.{ak}", lambda r, rk=rk, ak=ak: scen_rotate(r, "method", tier, only=(rk, ak))))
     tasks += [("pad_slice", scen_pad_slice), ("setters", scen_setters), ("rejected", scen_rejected),
